@@ -18,6 +18,7 @@ type mtimer struct {
 	stopped bool
 	fired   bool
 	period  value
+	due     int64 // deadline on the concrete logical clock (ns since the start of the path)
 }
 
 type mutexState struct {
@@ -44,6 +45,7 @@ type World struct {
 	servers      []*mserver
 	yieldOnRead  bool
 	fireBudget   int
+	tick         int64 // concrete logical clock used to order timers
 	fireBudgetOn bool
 }
 
@@ -98,6 +100,9 @@ func (w *World) Now() value {
 func (w *World) Advance(d value) {
 	w.Now()
 	w.now = binop(w.i, tokenADD, nil, w.now, d)
+	if c, ok := d.(int64); ok {
+		w.tick += c
+	}
 }
 
 // advance moves the clock forward to at least t.
@@ -118,7 +123,10 @@ func (w *World) newTimer(d value, fn value, ch *mchan) *mtimer {
 	}
 	w.objID++
 	when := binop(i, tokenADD, nil, w.now, d)
-	t := &mtimer{id: w.objID, when: when, fn: fn, ch: ch}
+	t := &mtimer{id: w.objID, when: when, fn: fn, ch: ch, due: w.tick}
+	if c, ok := d.(int64); ok {
+		t.due = w.tick + c
+	}
 	w.timers = append(w.timers, t)
 	return t
 }
@@ -142,6 +150,9 @@ func (w *World) fire(t *mtimer) {
 	}
 	t.fired = true
 	w.advanceTo(t.when)
+	if t.due > w.tick {
+		w.tick = t.due
+	}
 	if t.ch != nil {
 		if len(t.ch.buf) < 1 {
 			t.ch.buf = append(t.ch.buf, mkTime(w.now))
@@ -154,6 +165,9 @@ func (w *World) fire(t *mtimer) {
 	if t.period != nil {
 		t.fired = false
 		t.when = binop(i, tokenADD, nil, t.when, t.period)
+		if c, ok := t.period.(int64); ok {
+			t.due += c
+		}
 	}
 }
 
@@ -164,17 +178,17 @@ func (w *World) fireEarliestTimer() bool {
 	if !w.autoFire {
 		return false
 	}
-	if w.fireBudgetOn && w.fireBudget <= 0 {
-		return false
-	}
+	// earliest deadline first on the concrete logical clock (fixed delays are
+	// concrete; a symbolic delay counts as due at once); creation order breaks ties
+	var best *mtimer
 	for _, t := range w.timers {
-		if !t.stopped && !t.fired {
-			if w.fireBudgetOn {
-				w.fireBudget--
-			}
-			w.fire(t)
-			return true
+		if !t.stopped && !t.fired && (best == nil || t.due < best.due) {
+			best = t
 		}
 	}
-	return false
+	if best == nil {
+		return false
+	}
+	w.fire(best)
+	return true
 }
